@@ -113,8 +113,7 @@ def stream_sweep(run: Run, c: Ctx, batch: Batch):
         s1, s2 = el.xray.sld(energy=np.array(es)) if nd is not None else (None, None)
         for i, (kind, e) in enumerate(pts):
             sc1, sc2 = el.xray.scattering_factors(energy=e)
-            x1, sc = t.expected(e, 1)
-            x2, sc_2 = t.expected(e, 2)
+            (x1, sc), (x2, sc_2) = t.expected_both(e)
             inp = dict(element=t.sym, energy=e, kind=kind)
             run.count(key=("sf", z, e), nontrivial=True, tag="sweep:" + kind,
                       sample="%s.xray.scattering_factors(energy=%r)" % (t.sym, e) if i == 70 and z < 4 else None)
@@ -151,14 +150,25 @@ def stream_sweep(run: Run, c: Ctx, batch: Batch):
                 if not xd.close_scaled(s1[i], want1, abs(float(c.const["electron_radius"]) * nd * 1e-8 * sc)):
                     run.violation("Xray.sld is not r_e*N*f1", dict(inp, got=float(s1[i]), expected=want1),
                                   element=t.sym, clause="element-sld")
+        # a bare element is its one-atom compound at the element's density
+        if nd is not None:
+            from periodictable import xsf as _xsf
+            sel = [es[k] for k in (70, len(t.kev) // 2, len(t.kev) - 3)]
+            one = _xsf.xray_sld(el, density=el.density, energy=np.array(sel))
+            bare = el.xray.sld(energy=np.array(sel))
+            for k in range(len(sel)):
+                run.count(key=("el=cmpd", z, sel[k]), nontrivial=True, tag="sweep:element=compound")
+                if not (xd.close_scaled(one[0][k], bare[0][k], 0, 1e-9) and xd.close_scaled(one[1][k], bare[1][k], 0, 1e-9)):
+                    run.violation("Xray.sld of an element differs from xray_sld of its one-atom compound",
+                                  dict(element=t.sym, energy=sel[k], element_sld=[float(bare[0][k]), float(bare[1][k])],
+                                       compound_sld=[float(one[0][k]), float(one[1][k])]), element=t.sym, clause="element-sld")
         # wavelength route on the midpoints (exact nodes are avoided: the round trip through
         # hc/λ moves an energy by an ulp, which matters only where NaN begins)
         mids = [e for kind, e in pts if kind == "mid"]
         ws = [xd.energy_of_wavelength(e, c.const) for e in mids]   # λ of E has the same form as E of λ
         w1, w2 = el.xray.scattering_factors(wavelength=np.array(ws))
         for j, (e, w) in enumerate(zip(mids, ws)):
-            x1, sc = t.expected(xd.energy_of_wavelength(w, c.const), 1)
-            x2, sc_2 = t.expected(xd.energy_of_wavelength(w, c.const), 2)
+            (x1, sc), (x2, sc_2) = t.expected_both(xd.energy_of_wavelength(w, c.const))
             inp = dict(element=t.sym, wavelength=w, kind="mid-by-wavelength")
             run.count(key=("sfw", z, w), nontrivial=True, tag="sweep:wavelength")
             if not (xd.close_scaled(w1[j], x1, sc, rel=1e-8) and xd.close_scaled(w2[j], x2, sc_2, rel=1e-8)):
@@ -178,6 +188,63 @@ def stream_sweep(run: Run, c: Ctx, batch: Batch):
             run.count(key=("sf-none", el.number), nontrivial=False, tag="sweep:no-table")
             if got != (None, None):
                 run.disagree("scattering_factors(no table)", dict(element=el.symbol), "notable", repr(got))
+
+
+def stream_atom_kinds(run: Run, c: Ctx, batch: Batch, per_element):
+    """isotopes, ions and isotope ions of every tabulated element go through the element's table:
+    scattering_factors and Xray.sld by energy and by wavelength"""
+    np = c.np
+    rng = run.rng
+    ions = xd.element_ions()
+    re_ = float(c.const["electron_radius"])
+    for z, t in sorted(c.tables.items()):
+        el = c.tbl[z]
+        keys = [(z, 0, q) for q in ions[z]]
+        isos = list(el.isotopes)
+        for a in rng.sample(isos, min(len(isos), 2)):
+            keys.append((z, a, 0))
+            if ions[z]:
+                keys.append((z, a, rng.choice(ions[z])))
+        if z == 1:
+            keys += [(1, 2, 0), (1, 3, 0), (1, 2, 1), (1, 3, 1), (1, 2, -1), (1, 1, 1)]
+        nd = el.number_density
+        for key in keys:
+            atom = pyside.atom_of(key, c.tbl)
+            for _ in range(per_element):
+                j = rng.randrange(len(t.kev) - 1)
+                e = rng.choice([t.kev[j], 0.5 * (t.kev[j] + t.kev[j + 1]),
+                                math.exp(rng.uniform(math.log(0.03), math.log(30.0)))])
+                by_w = rng.random() < 0.4 and e not in t.kev
+                w = xd.energy_of_wavelength(e, c.const)
+                ee = xd.energy_of_wavelength(w, c.const) if by_w else e
+                (x1, sc), (x2, sc_2) = t.expected_both(ee)
+                inp = dict(atom=list(key), energy=e, by_wavelength=by_w)
+                kind = "isotope-ion" if key[1] and key[2] else "isotope" if key[1] else "ion"
+                run.count(key=("kind", key, e, by_w), nontrivial=True, tag="atom-kind:" + kind)
+                try:
+                    f = atom.xray.scattering_factors(wavelength=w) if by_w else atom.xray.scattering_factors(energy=e)
+                    sl = atom.xray.sld(wavelength=w) if by_w else atom.xray.sld(energy=e)
+                except Exception as ex:  # noqa
+                    run.violation("x-ray data of %s raised %s" % (kind, type(ex).__name__), inp, clause="atom-kind")
+                    continue
+                rel = 1e-8 if by_w else 1e-9
+                if f[0] is None or not (xd.close_scaled(f[0], x1, sc, rel) and xd.close_scaled(f[1], x2, sc_2, rel)):
+                    run.violation("scattering factors of an %s are not those of its element" % kind,
+                                  dict(inp, got=repr(f), expected=[x1, x2]), clause="atom-kind")
+                if nd is not None:
+                    k = re_ * nd * 1e-8
+                    if sl[0] is None or not (xd.close_scaled(sl[0], k * x1, k * sc, rel) and xd.close_scaled(sl[1], k * x2, k * sc_2, rel)):
+                        run.violation("Xray.sld of an %s is not r_e*N*f of its element" % kind,
+                                      dict(inp, got=repr(sl), expected=[k * x1, k * x2]), clause="atom-kind")
+
+                    def chk(rep, inp=inp, sl=sl, k=k, sc=sc, sc_2=sc_2, rel=rel):
+                        w_ = rep.split()
+                        if w_[0] != "ok" or sl[0] is None or not (xd.close_scaled(rf(w_[1]), sl[0], k * sc, rel)
+                                                               and xd.close_scaled(rf(w_[2]), sl[1], k * sc_2, rel)):
+                            run.disagree("Xray.sld(atom kinds)", inp, rep, repr(sl))
+                    batch.ask("esld %d %s %s" % (z, "w" if by_w else "e", f2h(w if by_w else e)), chk)
+                elif sl != (None, None):
+                    run.disagree("Xray.sld(no density)", inp, "none", repr(sl))
 
 
 # --------------------------------------------------------------------------- stream 2: compounds
@@ -246,8 +313,7 @@ def oracle_sld(c: Ctx, struct, density, energy):
     for k, n in cnt.items():
         M += n * Fraction(pyside.atom_of(k, c.tbl).mass)
         t = c.tables[k[0]]
-        f1, a1 = t.expected(energy, 1)
-        f2, a2 = t.expected(energy, 2)
+        (f1, a1), (f2, a2) = t.expected_both(energy)
         if f1 != f1:
             nan1 = True
         else:
@@ -586,15 +652,33 @@ def stream_convert(run: Run, c: Ctx, batch: Batch, n):
         batch.ask("w2e %s" % f2h(w), lambda rep, w=w, back=back: None if xd.close_scaled(h2f(rep), back) else run.disagree("xray_energy", dict(wavelength=w), h2f(rep), back))
 
 
+def guarded(run, what, fn, *args):
+    """an exception escaping the real code inside a stream is reported as a failure on the real
+    code (the stream's remaining cases are lost, the other streams still run)"""
+    try:
+        fn(*args)
+    except InfraError:
+        raise
+    except Exception as ex:  # noqa
+        import traceback
+        tb = traceback.extract_tb(ex.__traceback__)
+        where = [f for f in tb if "periodictable" in f.filename]
+        run.violation("the real code raised %s during the %s stream" % (type(ex).__name__, what),
+                      dict(stream=what, exception=repr(ex),
+                           where=["%s:%d %s" % (f.filename.rsplit("/", 1)[-1], f.lineno, f.name) for f in where[-3:]]),
+                      clause="raises")
+
+
 def run(run: Run) -> int:
     run.prove(generated=["Constants", "ElementBase", "F0Table"])
     batch = Batch()
     c = setup(run, batch)
     quick = run.tier == "quick"
-    stream_sweep(run, c, batch)
-    stream_convert(run, c, batch, 200 if quick else 5000)
-    stream_f0(run, c, batch, 2 if quick else 40)
-    stream_compounds(run, c, batch, 2500 if quick else 60000)
+    guarded(run, "node sweep", stream_sweep, run, c, batch)
+    guarded(run, "atom kinds", stream_atom_kinds, run, c, batch, 3 if quick else 40)
+    guarded(run, "conversions", stream_convert, run, c, batch, 200 if quick else 20000)
+    guarded(run, "f0", stream_f0, run, c, batch, 2 if quick else 150)
+    guarded(run, "compounds", stream_compounds, run, c, batch, 2500 if quick else 300000)
     batch.run()
     run.exhaustive = False
     return run.finish(RULE, assumptions=[
@@ -607,32 +691,72 @@ def run(run: Run) -> int:
 
 
 def replay(data) -> int:
+    """re-run the recorded inputs on the real code, the model (driver) and the oracle"""
     import numpy as np  # noqa
     pt = import_repo()
     from periodictable import xsf
     from periodictable.formulas import formula
-    tables = xd.read_nff_tables()
-    sym2z = {t.sym: z for z, t in tables.items()}
+    r = Run("C05", "quick", 0)
+    batch = Batch()
+    c = setup(r, batch)
+    sym2z = {t.sym: z for z, t in c.tables.items()}
+    out = []
+
+    def show(label):
+        return lambda rep: out.append((label, rep))
     for v in data.get("violations", []) + data.get("disagreements", []):
         inp = v["input"]
-        print("what:", v.get("what", v.get("corr")))
-        print(" input:", inp)
+        label = "%s | input: %s" % (v.get("what", v.get("corr")), {k: inp[k] for k in inp if k not in ("got", "expected")})
         try:
-            if "element" in inp and "energy" in inp:
+            if "element" in inp and ("energy" in inp or "wavelength" in inp):
                 z = sym2z[inp["element"]]
-                got = pt.elements[z].xray.scattering_factors(energy=inp["energy"])
-                print(" code:", got, " oracle:", tables[z].expected(inp["energy"], 1)[0], tables[z].expected(inp["energy"], 2)[0])
+                if "energy" in inp:
+                    e = inp["energy"]
+                    got = pt.elements[z].xray.scattering_factors(energy=e)
+                    batch.ask("sf %d e %s" % (z, f2h(e)), show(label))
+                else:
+                    e = xd.energy_of_wavelength(inp["wavelength"], c.const)
+                    got = pt.elements[z].xray.scattering_factors(wavelength=inp["wavelength"])
+                    batch.ask("sf %d w %s" % (z, f2h(inp["wavelength"])), show(label))
+                orc = c.tables[z].expected_both(e)
+                label += "\n   code: %r\n   oracle (exact interpolation of the raw rows): f1=%r f2=%r" % (got, orc[0][0], orc[1][0])
+                out_idx = len(out)
             elif "compound" in inp:
-                s = _retuple(inp["compound"])
-                f = formula(pyside.struct_objs(s, pt.elements))
-                print(" code: xray_sld(energy) =", xsf.xray_sld(f, density=inp["density"], energy=inp["energy"]))
+                st = _retuple(inp["compound"])
+                f = formula(pyside.struct_objs(st, pt.elements))
+                try:
+                    got = xsf.xray_sld(f, density=inp["density"], energy=inp["energy"])
+                except Exception as ex:  # noqa
+                    got = "raised %s" % type(ex).__name__
+                try:
+                    orc = oracle_sld(c, st, inp["density"], inp["energy"])[:2]
+                except KeyError:
+                    orc = "an atom has no table"
+                label += "\n   code: xray_sld(density=%r, energy=%r) = %r\n   oracle r_e*N_A*rho/m*sum(n f): %r" % (
+                    inp["density"], inp["energy"], got, orc)
+                batch.ask("sld d %s e %s %s" % (f2h(inp["density"]), f2h(inp["energy"]), pyside.struct_tokens(st)), show(label))
             elif "atom" in inp:
-                a = pyside.atom_of(tuple(inp["atom"]), pt.elements)
-                print(" code: f0 =", a.xray.f0(inp.get("Q", 0.0)))
+                z, a, q = inp["atom"]
+                Q = inp.get("Q", 0.0)
+                try:
+                    got = pyside.atom_of((z, a, q), pt.elements).xray.f0(Q)
+                except Exception as ex:  # noqa
+                    got = "raised %s" % type(ex).__name__
+                label += "\n   code: f0(%r) = %r   electrons: %d" % (Q, got, z - q)
+                batch.ask("f0 %d %d %s" % (z, q, f2h(Q)), show(label))
+            else:
+                print(label)
+                continue
         except Exception as ex:  # noqa
-            print(" code raised:", type(ex).__name__, ex)
-        if "model" in v:
-            print(" model:", v["model"], " impl:", v.get("impl"))
+            print(label, "\n   replay failed:", type(ex).__name__, ex)
+            continue
+        # patch the label that the closure captured (it was extended after the ask for sweeps)
+        batch.checks[-1] = show(label)
+    batch.run()
+    for label, rep in out:
+        if label:
+            print(label)
+            print("   model:", " ".join(("nan" if t == "nan" else repr(h2f(t))) if len(t) == 16 or t == "nan" else t for t in rep.split()))
     return 0
 
 
